@@ -120,6 +120,53 @@ func (x *Exec) model(fn *ssa.Function, name string) modelFn {
 		return x.strModel(func(a []*Term) *Term {
 			return Ite(StrSuffixOf(a[1], a[0]), StrSubstr(a[0], IntLit(0), Sub(StrLen(a[0]), StrLen(a[1]))), a[0])
 		})
+	case "(*bytes.Buffer).Reset":
+		return func(st *State, fr *Frame, fn *ssa.Function, args []*Val, pos token.Pos, cont retFn) {
+			b := x.bufLoc(st, args[0], pos)
+			cur := x.load(st, b, nil)
+			nv := &Val{K: kSlice, Arr: cur.Arr, Off: cur.Off, Len: IntLit(0), Cap: cur.Cap, Typ: cur.Typ}
+			x.frameCheck(st, b, pos)
+			x.store(st, b, nv)
+			o := args[0].L.field("off", types.Typ[types.Int])
+			x.store(st, o, scalar(IntLit(0), types.Typ[types.Int]))
+			cont(st, &Val{K: kTuple})
+		}
+	case "(*bytes.Buffer).Write", "(*bytes.Buffer).WriteString":
+		return func(st *State, fr *Frame, fn *ssa.Function, args []*Val, pos token.Pos, cont retFn) {
+			b := x.bufLoc(st, args[0], pos)
+			cur := x.load(st, b, nil)
+			nv := x.bufferAppend(st, cur, args[1], pos)
+			x.frameCheck(st, b, pos)
+			x.store(st, b, nv)
+			n := scalar(x.lenOf(args[1]), types.Typ[types.Int])
+			cont(st, &Val{K: kTuple, F: []*Val{n, x.zeroVal(fn.Signature.Results().At(1).Type())}, Typ: fn.Signature.Results()})
+		}
+	case "(*bytes.Buffer).WriteByte":
+		return func(st *State, fr *Frame, fn *ssa.Function, args []*Val, pos token.Pos, cont retFn) {
+			b := x.bufLoc(st, args[0], pos)
+			cur := x.load(st, b, nil)
+			bt := types.NewSlice(types.Typ[types.Uint8])
+			one := x.newSlice(st, bt, IntLit(1), IntLit(1))
+			x.storeLeaf(st, &Loc{Base: one.Arr, Root: "E|uint8", Idx: IntLit(0), T: types.Typ[types.Uint8]}, leaf{Path: "", Sort: SInt}, args[1].T)
+			nv := x.bufferAppend(st, cur, one, pos)
+			x.frameCheck(st, b, pos)
+			x.store(st, b, nv)
+			cont(st, x.zeroVal(fn.Signature.Results().At(0).Type()))
+		}
+	case "(*bytes.Buffer).Bytes":
+		return func(st *State, fr *Frame, fn *ssa.Function, args []*Val, pos token.Pos, cont retFn) {
+			b := x.bufLoc(st, args[0], pos)
+			cur := x.load(st, b, nil)
+			off := x.load(st, args[0].L.field("off", types.Typ[types.Int]), nil).T
+			cont(st, &Val{K: kSlice, Arr: cur.Arr, Off: Add(cur.Off, off), Len: Sub(cur.Len, off), Cap: Sub(cur.Cap, off), Typ: cur.Typ})
+		}
+	case "(*bytes.Buffer).Len":
+		return func(st *State, fr *Frame, fn *ssa.Function, args []*Val, pos token.Pos, cont retFn) {
+			b := x.bufLoc(st, args[0], pos)
+			cur := x.load(st, b, nil)
+			off := x.load(st, args[0].L.field("off", types.Typ[types.Int]), nil).T
+			cont(st, scalar(Sub(cur.Len, off), types.Typ[types.Int]))
+		}
 	case "bytes.Equal":
 		return func(st *State, fr *Frame, fn *ssa.Function, args []*Val, pos token.Pos, cont retFn) {
 			a, b := args[0], args[1]
@@ -147,4 +194,45 @@ func (x *Exec) strModel(f func(a []*Term) *Term) modelFn {
 		v := scalar(r, fn.Signature.Results().At(0).Type())
 		cont(st, v)
 	}
+}
+
+// bufLoc: location of the buf field of a *bytes.Buffer (exact model: Write appends to buf).
+func (x *Exec) bufLoc(st *State, p *Val, pos token.Pos) *Loc {
+	x.checkNonNil(st, p, pos)
+	x.note("bytes.Buffer modelled exactly as (buf []byte, off int): Write appends, Reset truncates")
+	return p.L.field("buf", types.NewSlice(types.Typ[types.Uint8]))
+}
+
+// bufferAppend models growth of a bytes.Buffer as an in-place extension of one logical byte
+// sequence: the content array of the buffer keeps its identity and the written bytes land at
+// [len, len+n). Reallocation is not modelled; this is exact for every use that respects the
+// documented rule that a slice obtained from Bytes() is not used after the next modification.
+func (x *Exec) bufferAppend(st *State, cur, src *Val, pos token.Pos) *Val {
+	x.note("bytes.Buffer growth modelled in place (slices from Bytes() assumed unused after the next write, as documented)")
+	n := x.lenOf(src)
+	key := "E|uint8|"
+	arrRef := cur.Arr
+	if x.sess.CheckWith(Eq(cur.Arr, IntLit(0))) != Unsat {
+		nr := x.alloc(st)
+		arrRef = x.bind(st, Ite(Eq(cur.Arr, IntLit(0)), nr, cur.Arr), "bufarr")
+		x.assume(st, Neq(arrRef, IntLit(0)), "buffer array non-nil")
+	}
+	h := x.heapGet(st, key, SInt)
+	var srcInner, srcOff *Term
+	if src.K == kScalar && src.T.sort == SStr {
+		bt := types.NewSlice(types.Typ[types.Uint8])
+		sb := x.stringToBytes(st, src.T, bt.Underlying().(*types.Slice), bt)
+		h = x.heapGet(st, key, SInt)
+		srcInner, srcOff = Select(h, sb.Arr), IntLit(0)
+	} else {
+		srcInner, srcOff = Select(h, src.Arr), src.Off
+	}
+	dst := Select(h, arrRef)
+	start := x.bind(st, Add(cur.Off, cur.Len), "bufend")
+	ni := x.writeRange(st, dst, start, srcInner, srcOff, n, SInt)
+	x.frameCheckRange(st, key, arrRef, start, Add(start, n), pos)
+	st.heap[key] = Store(h, arrRef, ni)
+	newLen := x.bind(st, Add(cur.Len, n), "buflen")
+	newCap := x.bind(st, Ite(Le(newLen, cur.Cap), cur.Cap, newLen), "bufcap")
+	return &Val{K: kSlice, Arr: arrRef, Off: cur.Off, Len: WithBounds(newLen, bigI(0), maxAddr), Cap: WithBounds(newCap, bigI(0), maxAddr), Typ: cur.Typ}
 }
